@@ -3,6 +3,7 @@ CONSTANTS
   Clients = {1, 2, 3}
   Start = 16777214
   MaxChanges = 3
-INVARIANTS Monotone StrictAfterChange OneEntry DirtyRegistered
+  ResourceWideDirty = FALSE
+INVARIANTS Monotone MonotoneStrict StrictAfterChange OneEntry DirtyRegistered
 CONSTRAINT Bound
 CHECK_DEADLOCK FALSE
